@@ -4,6 +4,9 @@ package storesim
 import (
 	"fmt"
 	"math/rand"
+	"os"
+	"runtime"
+	"testing/synctest"
 	"strings"
 	"testing"
 	"time"
@@ -43,12 +46,25 @@ func run(r *simkit.Run) {
 	rand.Seed(int64(r.Seed))
 	ffldb.VerifResetCounters()
 	defer ffldb.SetVerifFS(nil)
+	// goleveldb's pool goroutine lingers for one (simulated) second after Close
+	defer time.Sleep(2 * time.Second)
+	if os.Getenv("STORESIM_DEBUG") != "" {
+		defer func() {
+			synctest.Wait()
+			buf := make([]byte, 1<<20)
+			n := runtime.Stack(buf, true)
+			fmt.Printf("=== goroutines at end of run %d\n%s\n", r.Seed, buf[:n])
+		}()
+	}
 
 	// jump to the run's epoch before any database exists (goleveldb tickers)
 	time.Sleep(time.Duration(20*365+r.C.Intn(2000, "epoch-days")) * 24 * time.Hour)
 	r.MarkEpoch()
 
 	batch := simkit.Pick(r.C, "batch", 4, 4, 3, 3, 2)
+	if v := os.Getenv("STORESIM_BATCH"); v != "" { // debugging aid only
+		batch = int(v[0] - '0')
+	}
 	r.Meta["batch"] = batchNames[batch]
 	r.Sig("batch:" + batchNames[batch])
 	if batch == batchIsolation {
